@@ -45,6 +45,8 @@ def _cases(tier, seed):
     yield {'privacy': 0, 'project': 'reexport_defaults'}
     yield {'privacy': 0, 'project': 'toc_sections', 'extra': ['--theme', 'readthedocs', '--sidebar-expand-depth', '1']}
     yield {'privacy': 0, 'project': 'cycle_and_nested'}
+    for k in ((0, 2) if tier == 'quick' else range(4)):
+        yield {'privacy': 0, 'project': 'kitchen', 'options': k}
     yield {'privacy': 0, 'project': 'summary_names'}
     yield {'privacy': 0, 'project': 'index_root'}
     yield {'privacy': 0, 'project': 'two_roots', 'rules': ['HIDDEN:beta']}
@@ -53,7 +55,7 @@ def _cases(tier, seed):
 
 def _check(case):
     import replay.c12 as c12
-    files = PROJECTS[case['project']]
+    files = PROJECTS.get(case['project'], site.PROJECT_B)
     old_b, old_sets = site.PROJECT_B, site.PRIVACY_SETS
     site.PROJECT_B = files
     case = dict(case, project='B')
